@@ -628,6 +628,46 @@ fn image_cases(out: &mut Out, rng: &mut Rng, seed: u64, count: usize, thorough: 
         }
         out.line(&format!("fmtname {}", hex(format_name(*f).as_bytes())));
     }
+    // noise of every length in a window of 255 consecutive sizes (a length prefix written in bytes of 255 has one residue
+    // per window that needs a terminator): through the model just above 4 KiB, by the implementation alone above 64 KiB
+    for k in 0..255usize {
+        let w = 4097 + k;
+        let img = Image::new(
+            Extent3d { width: w as u32, height: 1, depth_or_array_layers: 1 },
+            TextureDimension::D1,
+            rng.bytes(w),
+            TextureFormat::R8Unorm,
+            RenderAssetUsages::RENDER_WORLD | RenderAssetUsages::MAIN_WORLD,
+        );
+        out.stat("image.noise_sweep");
+        emit_image(out, rng, &img, &format!("image-{}-noise{}", seed, w), false);
+    }
+    if thorough {
+        for k in 0..255usize {
+            let w = 65_600 + k;
+            let img = Image::new(
+                Extent3d { width: w as u32, height: 1, depth_or_array_layers: 1 },
+                TextureDimension::D1,
+                rng.bytes(w),
+                TextureFormat::R8Unorm,
+                RenderAssetUsages::RENDER_WORLD | RenderAssetUsages::MAIN_WORLD,
+            );
+            out.stat("image.noise_sweep_64k");
+            let id = format!("image-{}-noise{}", seed, w);
+            match verif::image_to_bin(&img) {
+                None => out.oracle_fail("image", &id, "image_to_bin returned None"),
+                Some(bin) => match catch(move || verif::bin_to_image(&bin)) {
+                    Ok(Some(i2)) => {
+                        if i2.texture_descriptor.size != img.texture_descriptor.size || i2.data != img.data {
+                            out.oracle_fail("image", &id, "round trip differs");
+                        }
+                    }
+                    Ok(None) => out.oracle_fail("image", &id, "bin_to_image returned None on image_to_bin output"),
+                    Err(p) => out.oracle_fail("image", &id, &format!("bin_to_image panicked on image_to_bin output: {}", p)),
+                },
+            }
+        }
+    }
     let mut n = 0usize;
     while n < count {
         // first pass: every format × every dimension at small sizes; then random
@@ -735,6 +775,18 @@ fn gen_msg(rng: &mut Rng, kind: usize) -> verif::VMessage {
         _ => Uuid::from_bytes(rng.bytes(16).try_into().unwrap()),
     };
     let bytes = |rng: &mut Rng| {
+        if rng.chance(1, 3) {
+            // short and mostly zero, like the head of every reflect payload: what a size-comparing packer sits on the fence about
+            let n = rng.below(25);
+            return (0..n).map(|_| if rng.chance(3, 4) { 0u8 } else { rng.u64() as u8 }).collect();
+        }
+        if rng.chance(1, 6) {
+            // a few zero words and then entropy (a token, a hash): every length in a window, not a handful of round ones
+            let n = rng.range(500, 800);
+            let mut v = vec![0u8; 24];
+            v.extend(rng.bytes(n));
+            return v;
+        }
         let n = *rng.pick(&[0usize, 1, 2, 7, 8, 9, 255, 256, 1000, 5000]);
         payload(rng, n)
     };
